@@ -67,11 +67,34 @@ class ExprMixin(EngineCore):
         return [(st, self.const_value(e.value))]
 
     def ev_Name(self, e, st, ctx):
-        return [(st, self.lookup_name(e.id, st, ctx))]
+        try:
+            return [(st, self.lookup_name(e.id, st, ctx))]
+        except EngineError:
+            # a local of this function that is not bound on this path (deleted, or its assignment was skipped): Python raises
+            if not ctx.spec and self.is_local_name(ctx.func, e.id):
+                return [(st, self.raise_py(st, UnboundLocalError, e.id))]
+            raise
+
+    def is_local_name(self, fi: FuncInfo, name: str) -> bool:
+        cache = getattr(fi, "_local_names", None)
+        if cache is None:
+            cache = set()
+            for n in ast.walk(fi.node):
+                if isinstance(n, ast.Name) and isinstance(n.ctx, (ast.Store, ast.Del)):
+                    cache.add(n.id)
+            try:
+                fi._local_names = cache
+            except AttributeError:
+                pass
+        return name in cache
 
     def ev_JoinedStr(self, e, st, ctx):
         # f-string: evaluate embedded expressions for their effects? They are repr()s of values: treated as pure/opaque.
         return [(st, OpaqueStr())]
+
+    def ev_Set(self, e, st, ctx):
+        # a set display of hashable constants (errno sets): kept as a tuple, used for membership tests and iteration only
+        return self.ev_Tuple(ast.Tuple(elts=e.elts, ctx=ast.Load(), lineno=e.lineno, col_offset=e.col_offset), st, ctx)
 
     def ev_Tuple(self, e, st, ctx):
         if any(isinstance(x, ast.Starred) for x in e.elts):
@@ -245,6 +268,12 @@ class ExprMixin(EngineCore):
             conj = []
             for k, op in enumerate(e.ops):
                 x, y = vals[k], vals[k + 1]
+                if isinstance(op, (ast.In, ast.NotIn)) and isinstance(x, Opt) and isinstance(y, tuple) and all(not isinstance(i, Opt) and i is not None for i in y):
+                    # `maybe_none in (constants...)`: None is simply not a member
+                    inner = self.compare_ext(s, ast.In(), x.val, y)
+                    r = z3.And(z3.Not(x.isnone), ops.truth(s, inner))
+                    conj.append(r if isinstance(op, ast.In) else z3.Not(r))
+                    continue
                 if isinstance(op, (ast.Lt, ast.LtE, ast.Gt, ast.GtE, ast.In, ast.NotIn)):
                     x = self.need(s, ctx, x, e.lineno, "compare-left")
                     y = self.need(s, ctx, y, e.lineno, "compare-right")
@@ -493,6 +522,9 @@ class ExprMixin(EngineCore):
                 return a[0] if a else None
             if attr == "errno":
                 a = d.get("args", ())
+                if len(a) < 2 and d.get("$arbitrary"):
+                    d["errno"] = Opt(smt.fresh("errno_isnone", z3.BoolSort()), smt.fresh("errno", smt.I))
+                    return d["errno"]
                 return a[0] if len(a) >= 2 else None
             if attr == "strerror":
                 return OpaqueStr()
